@@ -73,6 +73,9 @@ theories/GherkinProofs.vos theories/GherkinProofs.vok theories/GherkinProofs.req
 theories/GherkinRowProofs.vo theories/GherkinRowProofs.glob theories/GherkinRowProofs.v.beautified theories/GherkinRowProofs.required_vo: theories/GherkinRowProofs.v theories/Base.vo theories/UStr.vo theories/GherkinTypes.vo theories/Gherkin.vo theories/UserDataProofs.vo
 theories/GherkinRowProofs.vio: theories/GherkinRowProofs.v theories/Base.vio theories/UStr.vio theories/GherkinTypes.vio theories/Gherkin.vio theories/UserDataProofs.vio
 theories/GherkinRowProofs.vos theories/GherkinRowProofs.vok theories/GherkinRowProofs.required_vos: theories/GherkinRowProofs.v theories/Base.vos theories/UStr.vos theories/GherkinTypes.vos theories/Gherkin.vos theories/UserDataProofs.vos
+theories/GherkinTableProofs.vo theories/GherkinTableProofs.glob theories/GherkinTableProofs.v.beautified theories/GherkinTableProofs.required_vo: theories/GherkinTableProofs.v theories/Base.vo theories/UStr.vo theories/GherkinTypes.vo theories/Gherkin.vo theories/GherkinProofs.vo theories/GherkinRowProofs.vo theories/GherkinBlockProofs.vo theories/GherkinTagProofs.vo
+theories/GherkinTableProofs.vio: theories/GherkinTableProofs.v theories/Base.vio theories/UStr.vio theories/GherkinTypes.vio theories/Gherkin.vio theories/GherkinProofs.vio theories/GherkinRowProofs.vio theories/GherkinBlockProofs.vio theories/GherkinTagProofs.vio
+theories/GherkinTableProofs.vos theories/GherkinTableProofs.vok theories/GherkinTableProofs.required_vos: theories/GherkinTableProofs.v theories/Base.vos theories/UStr.vos theories/GherkinTypes.vos theories/Gherkin.vos theories/GherkinProofs.vos theories/GherkinRowProofs.vos theories/GherkinBlockProofs.vos theories/GherkinTagProofs.vos
 theories/GherkinTagProofs.vo theories/GherkinTagProofs.glob theories/GherkinTagProofs.v.beautified theories/GherkinTagProofs.required_vo: theories/GherkinTagProofs.v theories/Base.vo theories/UStr.vo theories/GherkinTypes.vo theories/Gherkin.vo theories/GherkinProofs.vo theories/GherkinBlockProofs.vo
 theories/GherkinTagProofs.vio: theories/GherkinTagProofs.v theories/Base.vio theories/UStr.vio theories/GherkinTypes.vio theories/Gherkin.vio theories/GherkinProofs.vio theories/GherkinBlockProofs.vio
 theories/GherkinTagProofs.vos theories/GherkinTagProofs.vok theories/GherkinTagProofs.required_vos: theories/GherkinTagProofs.v theories/Base.vos theories/UStr.vos theories/GherkinTypes.vos theories/Gherkin.vos theories/GherkinProofs.vos theories/GherkinBlockProofs.vos
@@ -193,9 +196,9 @@ props/C02.vos props/C02.vok props/C02.required_vos: props/C02.v theories/Base.vo
 props/C03.vo props/C03.glob props/C03.v.beautified props/C03.required_vo: props/C03.v theories/Base.vo theories/Status.vo theories/Rollup.vo theories/RollupProofs.vo gen/StatusTable.vo
 props/C03.vio: props/C03.v theories/Base.vio theories/Status.vio theories/Rollup.vio theories/RollupProofs.vio gen/StatusTable.vio
 props/C03.vos props/C03.vok props/C03.required_vos: props/C03.v theories/Base.vos theories/Status.vos theories/Rollup.vos theories/RollupProofs.vos gen/StatusTable.vos
-props/C04.vo props/C04.glob props/C04.v.beautified props/C04.required_vo: props/C04.v theories/Base.vo theories/UStr.vo theories/GherkinTypes.vo theories/Gherkin.vo theories/GherkinProofs.vo theories/GherkinRowProofs.vo theories/GherkinBlockProofs.vo theories/GherkinTagProofs.vo gen/GherkinTables.vo
-props/C04.vio: props/C04.v theories/Base.vio theories/UStr.vio theories/GherkinTypes.vio theories/Gherkin.vio theories/GherkinProofs.vio theories/GherkinRowProofs.vio theories/GherkinBlockProofs.vio theories/GherkinTagProofs.vio gen/GherkinTables.vio
-props/C04.vos props/C04.vok props/C04.required_vos: props/C04.v theories/Base.vos theories/UStr.vos theories/GherkinTypes.vos theories/Gherkin.vos theories/GherkinProofs.vos theories/GherkinRowProofs.vos theories/GherkinBlockProofs.vos theories/GherkinTagProofs.vos gen/GherkinTables.vos
+props/C04.vo props/C04.glob props/C04.v.beautified props/C04.required_vo: props/C04.v theories/Base.vo theories/UStr.vo theories/GherkinTypes.vo theories/Gherkin.vo theories/GherkinProofs.vo theories/GherkinRowProofs.vo theories/GherkinBlockProofs.vo theories/GherkinTagProofs.vo theories/GherkinTableProofs.vo gen/GherkinTables.vo
+props/C04.vio: props/C04.v theories/Base.vio theories/UStr.vio theories/GherkinTypes.vio theories/Gherkin.vio theories/GherkinProofs.vio theories/GherkinRowProofs.vio theories/GherkinBlockProofs.vio theories/GherkinTagProofs.vio theories/GherkinTableProofs.vio gen/GherkinTables.vio
+props/C04.vos props/C04.vok props/C04.required_vos: props/C04.v theories/Base.vos theories/UStr.vos theories/GherkinTypes.vos theories/Gherkin.vos theories/GherkinProofs.vos theories/GherkinRowProofs.vos theories/GherkinBlockProofs.vos theories/GherkinTagProofs.vos theories/GherkinTableProofs.vos gen/GherkinTables.vos
 props/C05.vo props/C05.glob props/C05.v.beautified props/C05.required_vo: props/C05.v theories/Base.vo theories/UStr.vo theories/GherkinTypes.vo theories/Gherkin.vo theories/GherkinProofs.vo
 props/C05.vio: props/C05.v theories/Base.vio theories/UStr.vio theories/GherkinTypes.vio theories/Gherkin.vio theories/GherkinProofs.vio
 props/C05.vos props/C05.vok props/C05.required_vos: props/C05.v theories/Base.vos theories/UStr.vos theories/GherkinTypes.vos theories/Gherkin.vos theories/GherkinProofs.vos
